@@ -84,6 +84,7 @@ type World struct {
 	step      int
 	client    int // client id (C18), 0 otherwise
 	nshared   int // slots [0,nshared) are shared, read-only tensors (C18)
+	sparse    []*tensor.CS // compressed sparse matrices (C18: built by the setup recipe, shared by all clients, only read)
 	eng       *FaultEng
 	lastErr   string
 	lastRes   int // slot the last result is pointer-identical to (-1: none / fresh)
